@@ -16,6 +16,7 @@ CLAIMS = {
     "C01": ("claimed for the preamble mechanism", "§6 C01"),
     "C03": ("claimed: datagram codec, size identity, max_datagram_size arithmetic", "§6 C03"),
     "C04": ("claimed for the mapping chain capsule/FIN/reset/QUIC close -> ConnectionError", "§6 C04"),
+    "C05": ("claimed for one step of the hazard the property names, on the control stream's SETTINGS frame: the frame arrives in two pieces (cut after 1, 2, 3 bytes) and the read future is either resumed (segmentation only) or dropped and re-created, which is what Worker::run_impl's select loop does whenever another branch completes in between; the generator checks that run_impl / run_control_streams / RemoteSettingsStream / the stream wrappers still have that shape. On the pinned tree the dropped-and-re-created case loses the consumed bytes: genuine defect D5, recorded in known_findings.json (KNOWN-FINDING, exit 0) with an end-to-end native demonstration in findings/D5. The request stream, the session stream and the real scheduler are outside", "§11.8"),
     "C06": ("claimed for the error-code conversions", "§6 C06"),
     "C08": ("claimed for the hand-off steps taken one future at a time: the worker's accepting branches and Driver::accept_uni/accept_bi/receive_datagram lose nothing when dropped at any suspension point, route every pulled stream to exactly one queue and return only the first queued stream of the asked-for session; the composition of these steps under the tokio scheduler, real channels and quinn is outside", "§11.7"),
     "C10": ("claimed for the decision logic of verify_server_cert over model certificates", "§6 C10"),
@@ -31,11 +32,10 @@ CLAIMS = {
 }
 
 # properties whose check is complete enough to be registered (others are listed as pending)
-READY = {"C01", "C03", "C04", "C06", "C08", "C10", "C11", "C12", "C13", "C14", "C15", "C16", "C17", "C18", "C20"}
+READY = {"C01", "C03", "C04", "C05", "C06", "C08", "C10", "C11", "C12", "C13", "C14", "C15", "C16", "C17", "C18", "C20"}
 
 NOT_APPLICABLE = {
     "C02": "end-to-end over Endpoint::connect / IncomingSession (quinn, tokio, DNS) and the url crate's parser; the only candidate kernel, the whole-function QPACK header pipeline over strings, exhausted 20 GB at 6 symbolic bytes; its kernels are decided under C14/C16, admission and status under C18 (DESIGN §8)",
-    "C05": "a statement over schedules of tokio::select! in Worker::run_impl and a quinn connection; Kani does not model the tokio runtime or concurrent tasks and the worker cannot be instantiated without a quinn::Connection; parser segmentation-independence is decided under C15 (DESIGN §8)",
     "C07": "liveness over peer behaviour, bounded tokio channels with reserved permits and spawned tasks; no encodable kernel owned by wtransport (DESIGN §8)",
     "C09": "bounded-time completion for all schedules (liveness) over tokio watch/mpsc and quinn; the encodable clauses (quinn cause / driver result -> wtransport cause; accept futures report the worker's stored result) are decided under C04 and C08 (DESIGN §8, §11.7)",
     "C19": "rcgen / x509-parser / pem / tokio::fs are crypto, ASN.1 and file-I/O libraries out of reach of symbolic execution; the digest text codec is dominated by std formatting / str::split / trim and did not finish at any useful bound (20 min and 14 min probes) (DESIGN §8)",
@@ -102,7 +102,7 @@ def main():
              "kind_free_text": "nightly MIR dump -> SMT-LIB2 for loop-free integer kernels; cvc5 + z3"},
         ],
         "checks": checks,
-        "notes": "See DESIGN.md. known_findings.json lists recorded findings (none suppressed at present) and the defects repaired by fix: commits.",
+        "notes": "See DESIGN.md. known_findings.json lists one recorded finding (D5, property C05: torn control-stream frame; demonstration in findings/D5) and the four defects repaired by fix: commits.",
         "not_applicable": not_app,
     }
     json.dump(m, open(os.path.join(VERIF, "MANIFEST.json"), "w"), indent=1)
